@@ -172,13 +172,21 @@ func GenScalar(t *rapid.T, ty *Type, p Profile) *Node {
 }
 
 // GenString draws a string value.
+var edgeRunes = []rune("a/~0\u007f\u0080\u0085\u00a0\u00ad\u00ff\u0100\u1680\u2000\u200b\u2028\u202f\u3000\ufeff\ufffd\ufffe\U00010000\U0010ffff²½Ⅳ")
+
 func GenString(t *rapid.T, p Profile) string {
 	var s string
 	switch rapid.IntRange(0, 9).Draw(t, "sclass") {
 	case 0, 1, 2, 3, 4, 5:
 		s = pick(t, StringPool, "sp")
-	case 6, 7:
+	case 6:
 		s = rapid.StringMatching(`[a-c/~ ]{0,6}`).Draw(t, "ss")
+	case 7:
+		// short strings over runes at the edges of ASCII / Latin-1 / "blank" / "valid", often looking like a JSON Pointer
+		s = rapid.StringOfN(rapid.RuneFrom(edgeRunes), 0, 4, -1).Draw(t, "edge")
+		if rapid.Bool().Draw(t, "pointerLooking") {
+			s = "/" + s
+		}
 	default:
 		s = rapid.String().Draw(t, "sr")
 	}
@@ -301,6 +309,11 @@ func GenStructType(t *rapid.T, p Profile, depth int) *Type {
 			}
 		case 3:
 			tags = append(tags, fmt.Sprintf(`bexpr:"%s,omitempty"`, pick(t, tagNames, "tn")))
+		case 5:
+			if p.Hidden {
+				// hidden, with options after the dash (as in `json:"-,omitempty"`): the selector library cuts at the comma first
+				tags = append(tags, []string{`bexpr:"-,omitempty"`, `bexpr:"-,"`}[rapid.IntRange(0, 1).Draw(t, "dashopt")])
+			}
 		case 4:
 			// options only, no name: the selector library then reaches the field neither by a tag name nor by
 			// its Go name (only by the empty part)
@@ -314,6 +327,8 @@ func GenStructType(t *rapid.T, p Profile, depth int) *Type {
 				tags = append(tags, fmt.Sprintf(`%s:"-"`, AltTag))
 			case 2:
 				tags = append(tags, fmt.Sprintf(`%s:",omitempty"`, AltTag))
+			case 3:
+				tags = append(tags, fmt.Sprintf(`%s:"-,omitempty"`, AltTag))
 			}
 		}
 		f.Tag = strings.Join(tags, " ")
